@@ -31,17 +31,29 @@ type c17Op struct {
 	Meta    reqmeta.Data `json:"meta"`
 }
 
+// The queue is generic: reghttp instantiates it with reqmeta.Data (size-aware priority), regsync and regbot with the
+// zero-size struct{} - for which all element addresses coincide, so both instantiations are run.
 func runC17(e *core.Env) {
+	if e.Choose("gen", 3, "elemtype") == 2 {
+		e.Probe("element-type:struct{}")
+		runC17T(e, "struct{}", func(reqmeta.Data) struct{} { return struct{}{} }, nil)
+		return
+	}
+	e.Probe("element-type:reqmeta.Data")
+	runC17T(e, "reqmeta.Data", func(d reqmeta.Data) reqmeta.Data { return d }, reqmeta.DataNext)
+}
+
+func runC17T[T any](e *core.Env, tname string, mk func(reqmeta.Data) T, next func(queued, active []*T) int) {
 	nq := e.Range("gen", 1, 3, "queues")
 	nt := e.Range("gen", 2, 5, "tasks")
-	useDataNext := e.Chance("gen", 1, 2, "datanext")
+	useDataNext := e.Chance("gen", 1, 2, "datanext") && next != nil
 	limits := make([]int, nq)
-	qs := make([]*pqueue.Queue[reqmeta.Data], nq)
+	qs := make([]*pqueue.Queue[T], nq)
 	for i := range qs {
 		limits[i] = e.Range("gen", 1, 3, "limit")
-		o := pqueue.Opts[reqmeta.Data]{Max: limits[i]}
+		o := pqueue.Opts[T]{Max: limits[i]}
 		if useDataNext {
-			o.Next = reqmeta.DataNext
+			o.Next = next
 		}
 		qs[i] = pqueue.New(o)
 	}
@@ -82,8 +94,8 @@ func runC17(e *core.Env) {
 			progs[t] = append(progs[t], op)
 		}
 	}
-	sample := map[string]any{"limits": limits, "datanext": useDataNext, "programs": progs}
-	e.SetCase(fmt.Sprintf("%v|%v|%+v", limits, useDataNext, progs), nt >= 2, sample)
+	sample := map[string]any{"element_type": tname, "limits": limits, "datanext": useDataNext, "programs": progs}
+	e.SetCase(fmt.Sprintf("%s|%v|%v|%+v", tname, limits, useDataNext, progs), nt >= 2, sample)
 
 	holders := make([]int, nq)
 	e.Sched.OnStep = func() {
@@ -121,19 +133,19 @@ func runC17(e *core.Env) {
 				var err error
 				switch op.Kind {
 				case "acquire":
-					done, err = qs[op.Queues[0]].Acquire(ctx, op.Meta)
+					done, err = qs[op.Queues[0]].Acquire(ctx, mk(op.Meta))
 				case "try":
-					done, err = qs[op.Queues[0]].TryAcquire(ctx, op.Meta)
+					done, err = qs[op.Queues[0]].TryAcquire(ctx, mk(op.Meta))
 				case "multi":
-					set := make([]*pqueue.Queue[reqmeta.Data], len(op.Queues))
+					set := make([]*pqueue.Queue[T], len(op.Queues))
 					for i, qi := range op.Queues {
 						set[i] = qs[qi]
 					}
 					var mctx context.Context
-					mctx, done, err = pqueue.AcquireMulti(ctx, op.Meta, set...)
+					mctx, done, err = pqueue.AcquireMulti(ctx, mk(op.Meta), set...)
 					if err == nil && done != nil {
 						// the returned context must make nested acquires of a member succeed at once
-						d2, err2 := qs[op.Queues[0]].Acquire(mctx, op.Meta)
+						d2, err2 := qs[op.Queues[0]].Acquire(mctx, mk(op.Meta))
 						if err2 != nil || d2 == nil {
 							e.Violation("multi-ctx", "nested-acquire-failed", "Acquire with the AcquireMulti context failed: %v", err2)
 						} else {
@@ -200,7 +212,7 @@ func runC17(e *core.Env) {
 	for i, q := range qs {
 		var rel []func()
 		for k := 0; k < limits[i]; k++ {
-			d, err := q.TryAcquire(context.Background(), reqmeta.Data{})
+			d, err := q.TryAcquire(context.Background(), mk(reqmeta.Data{}))
 			if err != nil || d == nil {
 				e.Violation("slot-lost", "slot-lost", "after all holders finished queue %d (max %d) admits only %d", i, limits[i], k)
 				break
@@ -208,7 +220,7 @@ func runC17(e *core.Env) {
 			rel = append(rel, d)
 		}
 		if len(rel) == limits[i] {
-			d, _ := q.TryAcquire(context.Background(), reqmeta.Data{})
+			d, _ := q.TryAcquire(context.Background(), mk(reqmeta.Data{}))
 			if d != nil {
 				e.Violation("bound", "extra-slot", "queue %d (max %d) admits %d", i, limits[i], limits[i]+1)
 				d()
